@@ -199,6 +199,10 @@ def rec_class(caps, sig):
         call = ([[int(v) for v in row] for row in numpy.asarray(X)], None if y is None else [int(v) for v in y], bool(yk),
                 [(k, [] if v is None else [int(t) for t in v]) for k, v in kw])
         self.log_ = list(getattr(self, "log_", [])) + [call]
+        # a fitted array updated IN PLACE (as partial_fit / warm-started solvers do): a copy of this model must own its own
+        if not hasattr(self, "acc_"):
+            self.acc_ = numpy.zeros(2, dtype=numpy.float64)
+        self.acc_ += numpy.array([1.0, float(len(call[0]))])
         return self
 
     if sig == "gen":
@@ -559,7 +563,8 @@ def snap(m):
     """observable state of a wrapped model: parameters, fit log, predictions on a probe batch"""
     import numpy
     probe = numpy.array([[1, 2], [3, -1], [0, 5]], dtype=numpy.int64)
-    out = {"a": m.a, "log": [fmt_call(c) for c in getattr(m, "log_", [])]}
+    out = {"a": m.a, "log": [fmt_call(c) for c in getattr(m, "log_", [])],
+           "acc": numpy.asarray(getattr(m, "acc_", [])).tolist()}
     for c in CAPS:
         if hasattr(m, c):
             out[c] = numpy.asarray(getattr(m, c)(probe)).tolist()
